@@ -97,6 +97,10 @@ public:
 	uint64_t interleaveAtCall = UINT64_MAX, dataCalls = 0;
 	bool interleaved = false, inInterleave = false;
 	std::string interleaveError;
+	// Fault: the k-th write call fails - the device reports an error (kind 0, std::runtime_error), memory runs out while the
+	// destination grows (kind 1, std::bad_alloc), or the destination rejects the size (kind 2, std::length_error)
+	uint64_t failAtCall = UINT64_MAX, writeCalls = 0;
+	int failKind = 0;
 
 	uint64_t Length() override { return data.size(); }
 	uint64_t Position() override { return data.size(); }
@@ -111,6 +115,11 @@ protected:
 			try { interleave(); } catch (const std::exception& e) { interleaveError = e.what(); } catch (...) { interleaveError = "non-std exception"; }
 			inInterleave = false;
 			interleaved = true;
+		}
+		if (++writeCalls == failAtCall) {
+			if (failKind == 1) throw std::bad_alloc();
+			if (failKind == 2) throw std::length_error("SimWriter: destination rejects the size");
+			throw std::runtime_error("SimWriter: device error at write call " + std::to_string(writeCalls));
 		}
 		if (size > capacity - data.size()) throw std::runtime_error("SimWriter: device full after " + std::to_string(data.size()) + " bytes");
 		if (trace.size() < 100000) trace.push_back(Rec{'w', size, data.size()});
